@@ -72,9 +72,13 @@ func mkCid(version uint64, codec uint64, hcode uint64, hlen int, data string) st
 	return string(c.Bytes())
 }
 
+// MkIdentityCid is a CIDv1 (raw) over an identity multihash of d bytes.
+func MkIdentityCid(d int) string { return mkCid(1, 0x55, mh.IDENTITY, -1, strings.Repeat("z", d)) }
+
 var linksFull []string
 
-// LinksFull: CIDv0, CIDv1 × {raw, dag-cbor, dag-json} × {sha2-256, sha2-512, sha2-256/20, identity}.
+// LinksFull: CIDv0, CIDv1 × {raw, dag-cbor, dag-json} × {sha2-256, sha2-512, sha2-256/20, identity}, and
+// identity CIDs of 22, 23, 24, 254, 255 and 256 bytes.
 func LinksFull() []string {
 	if linksFull != nil {
 		return linksFull
@@ -89,6 +93,11 @@ func LinksFull() []string {
 		)
 	}
 	out = append(out, mkCid(1, 0x71, mh.IDENTITY, -1, ""))
+	// CIDs whose byte length sits on the head boundaries of the byte string that carries them (the
+	// encoded string is one byte longer than the CID: 23|24 and 255|256)
+	for _, d := range []int{18, 19, 20, 249, 250, 251} {
+		out = append(out, mkCid(1, 0x55, mh.IDENTITY, -1, strings.Repeat("z", d)))
+	}
 	linksFull = out
 	return out
 }
